@@ -97,7 +97,7 @@ theorem C06_teardown_classification (ops : List Op) (order : List Addr) (h : Wel
   have hI := inv_final ops h
   have hs' : final (ops ++ [Op.teardown order]) = sweep Cfg.current (final ops) [] order := by
     unfold final; rw [run_append]; rfl
-  obtain ⟨hI', D, E, he, hg, hsw, _⟩ := inv_sweep hI [] order
+  obtain ⟨hI', D, E, he, hg, _, hsw, _⟩ := inv_sweep hI [] order
   rw [hs']
   refine ⟨?_, ?_⟩
   · intro e he'
@@ -167,7 +167,7 @@ theorem C06_collect_respects_marks (ops : List Op) (h : WellFormed ops) (marks o
       (∀ a ∈ marks, Clean a E) ∧
       (∀ e ∈ (final ops).reg, e.root = false → e.addr ∉ marks → Once e.addr E) := by
   have hI := inv_final ops h
-  obtain ⟨_, D, E, he, hg, hsw, hr⟩ := inv_sweep hI marks order
+  obtain ⟨_, D, E, he, hg, _, hsw, hr, _⟩ := inv_sweep hI marks order
   refine ⟨E, he.log, ?_, ?_⟩
   · intro a ha
     apply hg.clean
@@ -180,7 +180,7 @@ theorem C06_collect_respects_marks (ops : List Op) (h : WellFormed ops) (marks o
       rw [this] at hs; exact Bool.noConfusion hs.2
     rcases hd' with rfl | hreach
     · exact hem ha
-    · exact (Reach.closed (P := fun x => x ∉ marks) hclosed hreach hem) ha
+    · exact (Reach.closed (P := fun x => x ∉ marks) hclosed hreach.toReach hem) ha
   · intro e he' hroot hm
     apply hg.once
     apply hsw e he'
@@ -235,6 +235,59 @@ theorem C06_del_raw_finalises_now (ops : List Op) (h : WellFormed ops) (a : Addr
     exact (hI0.loose a (Or.inl ha)).2.1 (mem_regWithout_addrs.1 hc).1
   exact hI.done a hal hreg hnr hnl
 
+/-- **C06, the slot order does not matter.**  In any state reached by a well-formed history with the collector running,
+    two collections with the same marked set but different slot orders — owner swept before or after what it owns, in any
+    arrangement — finalise exactly the same objects: the registries afterwards hold the same addresses and the ledgers are
+    permutations of each other (only the order of the events differs). -/
+theorem C06_order_irrelevant (ops : List Op) (h : WellFormed ops) (hrun : (final ops).running = true)
+    (marks o1 o2 : List Addr) :
+    (∀ a, a ∈ (step Cfg.current (final ops) (Op.collect marks o1)).regAddrs ↔
+          a ∈ (step Cfg.current (final ops) (Op.collect marks o2)).regAddrs) ∧
+    (step Cfg.current (final ops) (Op.collect marks o1)).log.Perm
+      (step Cfg.current (final ops) (Op.collect marks o2)).log := by
+  have hI := inv_final ops h
+  obtain ⟨_, D1, E1, he1, hg1, hD1, hsw1, hr1, hk1⟩ := inv_sweep hI marks o1
+  obtain ⟨_, D2, E2, he2, hg2, hD2, hsw2, hr2, hk2⟩ := inv_sweep hI marks o2
+  -- the finalised sets coincide: each is the closure of the unmarked non-root entries under "owns a registered object"
+  have sub : ∀ {D D' : List Addr},
+      (∀ d ∈ D, ∃ e ∈ (final ops).reg, swept marks e = true ∧
+        (d = e.addr ∨ ReachT (final ops) (· ∈ (final ops).regAddrs) e.addr d)) →
+      (∀ e ∈ (final ops).reg, swept marks e = true → e.addr ∈ D') →
+      (∀ d ∈ D', ∀ y ∈ (final ops).ownsOf d, y ∈ (final ops).regAddrs → y ∈ D') →
+      ∀ d ∈ D, d ∈ D' := by
+    intro D D' hr hsw hk d hd
+    obtain ⟨e, he, hs, hde⟩ := hr d hd
+    have he' := hsw e he hs
+    rcases hde with rfl | hreach
+    · exact he'
+    · have aux : ∀ x, ReachT (final ops) (· ∈ (final ops).regAddrs) e.addr x → x ∈ D' := by
+        intro x r
+        induction r with
+        | base hx ht => exact hk _ he' _ hx ht
+        | step _ hx ht ih => exact hk _ ih _ hx ht
+      exact aux d hreach
+  have h12 : ∀ d, d ∈ D1 ↔ d ∈ D2 :=
+    fun d => ⟨sub hr1 hsw2 (hk2 hrun) d, sub hr2 hsw1 (hk1 hrun) d⟩
+  constructor
+  · intro a
+    show a ∈ (sweep Cfg.current (final ops) marks o1).regAddrs ↔ a ∈ (sweep Cfg.current (final ops) marks o2).regAddrs
+    unfold St.regAddrs
+    rw [he1.reg, he2.reg, mem_regWithout_addrs, mem_regWithout_addrs, h12]
+  · show (sweep Cfg.current (final ops) marks o1).log.Perm (sweep Cfg.current (final ops) marks o2).log
+    rw [he1.log, he2.log]
+    apply List.Perm.append_left
+    rw [List.perm_iff_count]
+    intro ev
+    have key : ∀ (D : List Addr) (E : List Ev), Good D E → ∀ a,
+        E.count (Ev.fin a) = (if a ∈ D then 1 else 0) ∧ E.count (Ev.free a) = (if a ∈ D then 1 else 0) := by
+      intro D E hg a
+      by_cases ha : a ∈ D
+      · simp only [ha, if_true]; exact (hg.once a ha).counts
+      · simp only [ha, if_false]; exact count_eq_zero_of_clean (hg.clean a ha)
+    cases ev with
+    | fin a => rw [(key D1 E1 hg1 a).1, (key D2 E2 hg2 a).1]; simp only [h12]
+    | free a => rw [(key D1 E1 hg1 a).2, (key D2 E2 hg2 a).2]; simp only [h12]
+
 /-! ### non-vacuity: concrete histories that meet the hypotheses -/
 
 /-- Box → probe, the owner swept *before* what it owns (order `[2, 1]`), plus a root and a raw object deleted by the
@@ -253,6 +306,14 @@ example :
     let ops : List Op := [.new 1 .std [] [1] [], .new 2 .std [1] [1, 2] []]
     WellFormed ops ∧ (final ops).running = true ∧ 2 ∈ (final ops).regAddrs ∧ 1 ∈ (final ops).ownsOf 2 ∧
       1 ∈ (final ops).regAddrs ∧ (final (ops ++ [Op.del 2 .std])).log = [.fin 2, .fin 1, .free 1, .free 2] := by
+  decide
+
+/-- `C06_order_irrelevant` is not vacuous: a running state in which the two slot orders give different event sequences -/
+example :
+    let ops : List Op := [.new 1 .std [] [1] [], .new 2 .std [1] [1, 2] []]
+    WellFormed ops ∧ (final ops).running = true ∧
+      (step Cfg.current (final ops) (Op.collect [] [2, 1])).log = [.fin 2, .fin 1, .free 1, .free 2] ∧
+      (step Cfg.current (final ops) (Op.collect [] [1, 2])).log = [.fin 1, .free 1, .fin 2, .free 2] := by
   decide
 
 /-- the same pair, owned object swept *before* its owner (order `[1, 2]`): the owner's `del` finds nothing -/
